@@ -71,12 +71,22 @@ def layout(text):
     return "\n".join(L) + "\n", where
 
 
-def observe(flexdir, text, noline=False, cfgargs=()):
+def observe(flexdir, text, noline=False, cfgargs=(), split=False):
+    """split: the specification is given to flex as two input files (flex in.l in2.l), cut in the rules section;
+    code of the second file has to be located by its line in that file"""
     wd = tempfile.mkdtemp(prefix="uc.", dir=os.environ.get("VERIF_SCRATCH", "/tmp"))
     src, where = layout(text)
     lp = os.path.join(wd, "in.l"); cp = os.path.join(wd, "scan.c"); exe = os.path.join(wd, "scan")
-    open(lp, "w", encoding="latin-1").write(src)
-    p = subprocess.run([os.path.join(flexdir, "flex")] + (["-L"] if noline else []) + list(cfgargs) + ["-o", cp, lp], stdout=subprocess.PIPE, stderr=subprocess.PIPE,
+    inputs = [lp]
+    if split:
+        ls = src.splitlines(True)
+        cut = where["action"][1] - 1          # the line before the first scripted action starts the second file
+        open(lp, "w", encoding="latin-1").write("".join(ls[:cut]))
+        lp2 = os.path.join(wd, "in2.l"); open(lp2, "w", encoding="latin-1").write("".join(ls[cut:])); inputs.append(lp2)
+        where = {r: (t, (ln - cut if ln > cut else ln)) for r, (t, ln) in where.items()}
+    else:
+        open(lp, "w", encoding="latin-1").write(src)
+    p = subprocess.run([os.path.join(flexdir, "flex")] + (["-L"] if noline else []) + list(cfgargs) + ["-o", cp] + inputs, stdout=subprocess.PIPE, stderr=subprocess.PIPE,
                        text=True, errors="replace", env=dict(os.environ, LC_ALL="C"), timeout=60)
     flexrc = p.returncode; ccrc = -1; seen = {}; bad = 0; nd = 0; note = p.stderr[:300]
     if flexrc == 0:
@@ -101,5 +111,5 @@ def observe(flexdir, text, noline=False, cfgargs=()):
         e = seen.get(region, {})
         obs.append(dict(region=region, expected=[ord(ch) for ch in exp], observed=e.get("text", [-1]), srcline=srcline,
                         seenline=e.get("line", -1), flexrc=flexrc, ccrc=ccrc, linedirs_bad=bad, linedirs=nd, noline=noline,
-                        text=text, note=note, files=[lp]))
+                        text=text, note=note, files=inputs))
     return obs, wd
